@@ -71,7 +71,10 @@ func runEvalConcurrent(c EvalCase, rec *h.Rec) error {
 	tn := evalTypeName(c)
 	in0 := e.inputsDigest()
 	orig := e.newEvaluator(e.evk)
-	e.addLateKeys() // keys put into the shared key set after the evaluator was constructed (before any concurrent use)
+	lateBefore := c.Seed%3 == 0
+	if lateBefore {
+		e.addLateKeys() // keys put into the shared key set after the evaluator was constructed, before the copies are taken
+	}
 	if c.UseBefore {
 		e.runOps(orig, c.Ops)
 	}
@@ -79,11 +82,19 @@ func runEvalConcurrent(c EvalCase, rec *h.Rec) error {
 	objs := make([]evalObj, g)
 	objs[0] = orig // "the receiver and the returned evaluators can be used concurrently"
 	for i := 1; i < g; i++ {
-		if i%2 == 1 {
+		switch {
+		case i%3 == 2 && e.evk != nil, i == 1 && g == 2 && e.evk != nil && c.Seed&2 == 0:
+			// rebinding to the same key set: WithKey shares the buffers of its receiver, so the receiver is a private
+			// shallow copy that nobody else uses
+			objs[i] = orig.shallowCopy().withKey(e.evk)
+		case i%3 == 1:
 			objs[i] = orig.shallowCopy()
-		} else {
+		default:
 			objs[i] = objs[i-1].shallowCopy() // copy of a copy
 		}
+	}
+	if !lateBefore {
+		e.addLateKeys() // history: the key set grows after every copy was derived (and before any concurrent use)
 	}
 	// sequential reference: the same original, used alone
 	want := e.runOps(orig, c.Ops)
